@@ -526,7 +526,10 @@ def run_case(case, ctx):
     with util.settings_ctx(sd, tight=False), torch.autograd.set_detect_anomaly(True):
         got = mll(model(X), y)
         ggot = torch.autograd.grad(got.sum(), params, allow_unused=True) if params else []
-    ctx.close("mll_value", got, ref, "direct", cls=cls + (":frozen_" + case["freeze"] if case.get("freeze") else ""))
+    # the value loses cond(K+S)*eps digits on both sides (near-singular task-noise structures without a global noise reach
+    # cond 1e10 and log densities of 1e6): 1e-8 up to cond 1e7, then proportional, capped at 1e-6
+    vt_ = min(max(1e-8, 1e-15 * _COND.get("A", 1.0)), 1e-6)
+    ctx.close("mll_value", got, ref, (1e-8, vt_), cls=cls + (":frozen_" + case["freeze"] if case.get("freeze") else ""))
     nz = False
     # gradients of both sides lose cond(K+S)*eps digits: 1e-7 up to cond 1e7, then proportional (1e-5 at cond 1e9 is the cap:
     # worse-conditioned cells are decided on the value only)
